@@ -44,6 +44,26 @@ type env struct {
 	defs   map[string]string
 }
 
+// plain returns a copy of the table that certainly has no secondary index (filters are evaluated, not looked up)
+func (v *env) plain(rows [][]x.Val) string {
+	kb, _ := json.Marshal(rows)
+	key := "plain|" + string(kb)
+	if n, ok := v.tables[key]; ok {
+		return n
+	}
+	name := fmt.Sprintf("p%d", len(v.tables))
+	v.s.MustExec("CREATE TABLE " + name + " (id INT PRIMARY KEY, a INT, b INT, d DECIMAL(10,2), s VARCHAR(20), c VARCHAR(20) COLLATE utf8mb4_0900_ai_ci)")
+	for i, r := range rows {
+		vals := []string{fmt.Sprintf("%d", i)}
+		for _, c := range r {
+			vals = append(vals, c.SQL())
+		}
+		v.s.MustExec("INSERT INTO " + name + " VALUES (" + strings.Join(vals, ", ") + ")")
+	}
+	v.tables[key] = name
+	return name
+}
+
 func (v *env) table(rows [][]x.Val) string {
 	kb, _ := json.Marshal(rows)
 	if n, ok := v.tables[string(kb)]; ok {
@@ -265,6 +285,21 @@ func eqStr(a, b []string) bool {
 }
 
 // what in the expressions could explain a divergence that is already known
+func intLike(t string) bool { return t == "int" || t == "bool" }
+
+// inIntFirst: IN operands (left, e1, e2, ..) with an integer left operand, an integer first element and a later decimal
+// element (HashInTuple then compares as BIGINT and rounds the decimal)
+func inIntFirst(o []*x.Ex) bool {
+	if len(o) > 2 && intLike(x.TyOf(o[0])) && intLike(x.TyOf(o[1])) {
+		for _, e := range o[2:] {
+			if x.TyOf(e) == "dec" {
+				return true
+			}
+		}
+	}
+	return false
+}
+
 func feature(es []*x.Ex) string {
 	scales := map[int]bool{}
 	ciCol, hasDec, hasInt := false, false, false
@@ -291,9 +326,8 @@ func feature(es []*x.Ex) string {
 		return "case-insensitive-column"
 	case len(scales) > 1:
 		return "decimal-scale-mix"
-	case hasDec && hasInt:
-		return "int-and-decimal-mix"
 	}
+	_, _ = hasDec, hasInt
 	return "plain"
 }
 
@@ -375,8 +409,13 @@ func run(c *lib.Ctx, v *env, cs caseT) {
 			id = c.CaseNoModel(cs, nontriv())
 		}
 		c.PredChecked()
+		ft := feature(cs.E)
+		if ft == "plain" && inIntFirst(cs.E) {
+			ft = "integer-first-element-then-decimal"
+		}
+		hashInCase(c, v, cs)
 		if !eqStr(results[0], results[1]) {
-			c.PredFail(id, "in-or/where/"+feature(cs.E), fmt.Sprintf("[%s] => %v but [%s] => %v (rows %s)", sqls[0], results[0], sqls[1], results[1], rowsText(cs.T1)), cs)
+			c.PredFail(id, "in-or/where/"+ft, fmt.Sprintf("[%s] => %v but [%s] => %v (rows %s)", sqls[0], results[0], sqls[1], results[1], rowsText(cs.T1)), cs)
 		}
 		if !eqStr(results[2], results[3]) {
 			c.PredFail(id, "in-or/select/"+feature(cs.E), fmt.Sprintf("[%s] => %v but [%s] => %v (rows %s)", sqls[2], results[2], sqls[3], results[3], rowsText(cs.T1)), cs)
@@ -553,6 +592,66 @@ func numCanon(res eng.Result) []string {
 		}
 	}
 	return out
+}
+
+// hashInCase: WHERE x IN (literals) / WHERE NOT x IN (literals) on an index-free copy, for the HashInTuple model
+func hashInCase(c *lib.Ctx, v *env, cs caseT) {
+	left := cs.E[0]
+	if left.HasRaw() || !x.Wt(left) {
+		return
+	}
+	for _, e := range cs.E[1:] {
+		if e.K != "lit" || !x.Wt(e) {
+			return
+		}
+	}
+	lt, ft := x.TyOf(left), x.TyOf(cs.E[1])
+	ok := false
+	switch {
+	case lt == "str":
+		ok = ft == "str"
+	case lt == "dec":
+		ok = ft != "str"
+	case intLike(lt):
+		ok = ft == "dec" || intLike(ft)
+	}
+	for _, e := range cs.E[1:] {
+		// string elements only with a string left operand and vice versa (isConsistentType / fragment of the model)
+		if (x.TyOf(e) == "str") != (lt == "str") && x.TyOf(e) != "null" {
+			ok = false
+		}
+	}
+	if !ok {
+		return
+	}
+	t := v.plain(cs.T1)
+	in := &x.Ex{K: "in", A: cs.E}
+	r1 := v.s.Query("SELECT id FROM " + t + " WHERE " + in.SQL())
+	r2 := v.s.Query("SELECT id FROM " + t + " WHERE NOT " + in.SQL())
+	if r1.Err != nil || r2.Err != nil {
+		c.Count("hash-in:error")
+		return
+	}
+	els := make([]string, len(cs.E)-1)
+	for i, e := range cs.E[1:] {
+		els[i] = "(" + e.V.Coq() + ", " + coqTy(x.TyOf(e)) + ")"
+	}
+	c.Count("hash-in:modelled")
+	c.Case("(HashInCase "+v.rowsCoq(cs.T1)+" "+coqTy(lt)+" "+left.Coq()+" "+lib.CoqList(els)+" "+coqIDs(ints(r1))+" "+coqIDs(ints(r2))+")", cs, "")
+}
+
+func coqTy(t string) string {
+	switch t {
+	case "null":
+		return "TyNull"
+	case "bool":
+		return "TyBool"
+	case "int":
+		return "TyInt"
+	case "dec":
+		return "TyDec"
+	}
+	return "TyStr"
 }
 
 func hasErr(rs [][]string) bool {
